@@ -122,18 +122,20 @@ def findIn (ms : List Method) (c m : Str) : Option Method :=
 
 def findClass (ct : ClassTable) (c : Str) : Option ClassDecl := ct.find? (fun d => d.name = c)
 
-/-- `c`, its base, the base's base, … (single inheritance; the fuel bounds a cyclic table) -/
+/-- `c`, then the whole ancestry of its first base, then of its second base, …: the depth-first left-to-right walk of
+    `Reflections.__resolve_raw_recursive` (reflections.py:260-277). For TREE-shaped hierarchies (every class reaches each ancestor on one
+    path: no diamonds) this is CPython's MRO. (The fuel bounds a cyclic table.) -/
 def chainFrom (ct : ClassTable) : Nat → Str → List Str
   | 0, _ => []
   | fuel + 1, c =>
     match findClass ct c with
     | none => []
-    | some d => c :: (match d.base with | some b => chainFrom ct fuel b | none => [])
+    | some d => c :: d.bases.flatMap (fun b => chainFrom ct fuel b)
 
 def chainOf (ct : ClassTable) (c : Str) : List Str := chainFrom ct (ct.length + 1) c
 
 /-- `Reflections.__resolve_raw` / `__resolve_raw_recursive` for a member of a user class: the class's own scope, then the
-    inheritance chain, nearest first (reflections.py:245-277) -/
+    bases depth-first, left to right (reflections.py:245-277) -/
 def memberOf (ct : ClassTable) (c a : Str) : Option Member :=
   (chainOf ct c).findSome? fun e => (findClass ct e).bind fun d => d.members.find? (fun m => m.name = a)
 
